@@ -465,4 +465,33 @@ Section Sim.
       destruct Hr as [A|[A|[(i & d & _ & _ & A)|(ids & _ & _ & A)]]]; apply H in A; discriminate.
     - eapply returned_step; eauto.
   Qed.
+
+  (* what a flush is about to persist is the id set of its linearization point: no mutation
+     changed the bitmap since, because none runs while the flush holds the gate *)
+  Lemma flush_snap_step s t l s' : mutex s -> cstep s t l s' ->
+    (forall f ids, at_t s f OFlush (TFlushSnap ids) -> ids = c_bitmap s) ->
+    forall f ids, at_t s' f OFlush (TFlushSnap ids) -> ids = c_bitmap s'.
+  Proof.
+    intros (_ & _ & MS) Hst IH f ids A2.
+    destruct (cstep_shape _ _ _ _ Hst) as (o0 & p0 & p0' & Hu & _).
+    destruct (at_after _ _ _ _ _ _ _ _ _ Hu A2) as [(E1 & E2 & E3)|(N & B)].
+    - subst f. clear Hu E2 E3. self_case Hst A2. reflexivity.
+    - rewrite (IH _ _ B).
+      assert (HX : holds_excl s f) by (exists OFlush, (TFlushSnap ids); split; auto).
+      assert (Hrun : forall o p, at_t s t o p -> is_flush o = false -> running p = true -> False).
+      { intros o p A F Rn. apply (MS f t HX). exists o, p. split; auto. unfold holds_shared_t; simpl. rewrite F, Rn. auto. }
+      destruct (cstep_effect _ _ _ _ Hst) as [ES EB NC|d0 i A ES EB A'|i u d0 A G ES EB|i d0 A ES EB|d0 i A ES EB|i A ES EB];
+        try (symmetry; exact EB); exfalso.
+      + eapply Hrun; eauto.
+      + destruct A as [A|(d1 & A)]; eapply Hrun; eauto.
+  Qed.
+
+  Theorem flush_sees_current s : reach (init docs0 ops0) s ->
+    forall f ids, at_t s f OFlush (TFlushSnap ids) -> ids = c_bitmap s.
+  Proof.
+    induction 1.
+    - intros f ids A. exfalso. unfold at_t, init in A; simpl in A. apply nth_error_In in A. apply in_map_iff in A.
+      destruct A as (x & E & _). inversion E.
+    - eapply flush_snap_step; eauto using reach_mutex.
+  Qed.
 End Sim.
